@@ -18,7 +18,8 @@ RULE = ("random networks on rasters <= 56 cells (quick) / <= 400 (thorough) and 
         "max_length or a guaranteed stop); direction up/down; unit cell / m on projected non-square Pythagorean cells "
         "(exact) and on geographic or square grids (implementation's step lengths as parameters); masks incl. flagged "
         "start cells; max_length none / exactly on a step boundary / a quarter step off / zero / negative; starts by "
-        "index or by coordinates (interior points and, on dyadic transforms, cell edges); geographic rasters (unit m and "
+        "index or by coordinates (interior points and, on dyadic transforms, cell edges and points 2**-20 / 2**-30 / 2**-40 "
+        "of a cell inside the edge on every side); geographic rasters (unit m and "
         "unit cell) are placed anywhere between longitude -360 and 360: inside -180..180, across the antimeridian on "
         "either side (columns continuing east of 180 / west of -180), 0..360-convention windows east of 180 and their "
         "mirror west of -180, cells of 1/8 .. 5 degrees, latitudes -80..80. non-trivial = some path of "
@@ -483,6 +484,26 @@ def _raster_case(ctx, rng, max_cells):
             r, c = divmod(s, ncol)
             fx = Fraction(rng.randint(0 if edge_ok else 1, 7), 8)
             fy = Fraction(rng.randint(0 if edge_ok else 1, 7), 8)
+            if edge_ok:
+                # points a hair inside the cell on either side of each axis: 2**-20 / 2**-30 / 2**-40 of a cell from the
+                # west / east (north / south) edge, where that coordinate is an exact binary64 (else the eighth is kept)
+                near = []
+                for ax, (org, k, res) in enumerate(((x0, c, xres), (y0, r, yres))):
+                    if rng.random() < 0.5:
+                        e = Fraction(1, 2 ** rng.choice([20, 30, 40]))
+                        f = e if rng.random() < 0.5 else 1 - e
+                        v = Fraction(org) + (k + f) * Fraction(res)
+                        if Fraction(float(v)) == v:
+                            near.append(("xy"[ax], f))
+                            if ax == 0:
+                                fx = f
+                            else:
+                                fy = f
+                        else:
+                            ctx.count("xy-start:near-edge-not-representable")
+                for axn, f in near:
+                    ctx.count("xy-start:near-edge:%s:%s-2^-%d" % (axn, "low" if f < Fraction(1, 2) else "high",
+                                                                  (f if f < Fraction(1, 2) else 1 - f).denominator.bit_length() - 1))
             x = Fraction(x0) + (c + fx) * Fraction(xres)
             y = Fraction(y0) + (r + fy) * Fraction(yres)
             assert Fraction(float(x)) == x and Fraction(float(y)) == y
@@ -794,8 +815,7 @@ def _req_main_upstream(reqs, checks, ds, upa_model, upa_spec, upa_min, impl, lab
 def _req_cellof(reqs, checks, nrow, ncol, x0, y0, xres, yres, xs, ys, cells, idx_impl):
     den = 1
     for v in [Fraction(x0), Fraction(y0), Fraction(xres), Fraction(yres)] + list(xs) + list(ys):
-        den = den * v.denominator // np.gcd(den, v.denominator)
-    den = int(den)
+        den = den * v.denominator // math.gcd(den, v.denominator)      # python ints: 2**43 and beyond
     sc = lambda v: int(Fraction(v) * den)
     pos = len(reqs)
     reqs.append(("c11_cellof", {"nrow": nrow, "ncol": ncol, "x0": sc(x0), "y0": sc(y0), "xres": sc(xres), "yres": sc(yres),
